@@ -2,7 +2,7 @@
 import numpy as np
 from hypothesis import strategies as st
 
-from persim import PersistenceLandscaper, PersLandscapeApprox
+from persim import PersistenceLandscaper, PersLandscapeApprox, PersLandscapeExact
 from persim.landscapes.tools import death_vector, vectorize
 
 from ..core import Clause, close
@@ -39,7 +39,7 @@ def s_grid_case(draw, max_bars=10):
     fam = draw(LD.bar_family(1, max_bars, dup_bias=False))
     bars = fam["dgms"][0]
     kind = draw(st.sampled_from(["tight", "tight", "padded", "padded", "default"]))
-    n = draw(st.one_of(st.integers(2, 12), st.sampled_from(list(range(13, 201))), st.sampled_from(list(range(13, 201))), st.sampled_from([2, 3, 5, 11, 101, 200])))
+    n = draw(st.one_of(st.integers(2, 12), st.sampled_from(list(range(13, 201))), st.sampled_from(list(range(13, 201))), st.sampled_from([2, 3, 5, 11, 101, 200, 500, 500])))
     return {"fam": fam, "grid": kind, "num_steps": n, "pad": [draw(st.sampled_from([0.0, 0.1, 0.5, 1.0, 1 / 3.0])), draw(st.sampled_from([0.0, 0.1, 0.5, 1.0, 0.7]))],
             "n_inf": draw(st.sampled_from([0, 0, 0, 1, 2])), "hom_deg": draw(st.sampled_from([0, 0, 1]))}
 
@@ -143,7 +143,7 @@ def check_on_grid(case, ctx):
 @st.composite
 def s_vectorize(draw):
     fam = draw(LD.bar_family(1, 8, dup_bias=False))
-    return {"fam": fam, "num_steps": draw(st.one_of(st.integers(2, 120), st.sampled_from([2, 3, 50]))),
+    return {"fam": fam, "num_steps": draw(st.one_of(st.integers(2, 120), st.sampled_from([2, 3, 50, 500, 500]))), "lazy": draw(st.booleans()),
             "grid": draw(st.sampled_from(["default", "given", "given_wide"])), "pad": draw(st.sampled_from([0.0, 0.25, 1.0]))}
 
 
@@ -155,15 +155,17 @@ def check_vectorize(case, ctx):
     fired = LD.shortcut_fired(ple)
     lo = min(b for b, _ in bars)
     hi = max(d for _, d in bars)
-    ctx.label("grid:" + case["grid"], "shortcut_fired" if fired else None)
+    ctx.label("grid:" + case["grid"], "shortcut_fired" if fired else None, "lazy" if case.get("lazy") else None, "num_steps=500(default)" if n == 500 else None)
+    # the object handed to vectorize may be one whose landscape has not been computed yet (compute=False): vectorize is then its first use
+    arg = ctx.call(PersLandscapeExact, dgms=[np.array(bars, dtype=float)], hom_deg=0, compute=False) if case.get("lazy") else ple
     if case["grid"] == "default":
         # documented default: from the first depth's critical points, i.e. min birth .. max death
         start, stop = lo, hi
-        out = ctx.call(vectorize, ple, num_steps=n)
+        out = ctx.call(vectorize, arg, num_steps=n)
     else:
         pad = case["pad"] * (hi - lo) if case["grid"] == "given_wide" else 0.0
         start, stop = lo - pad, hi + pad
-        out = ctx.call(vectorize, ple, start=start, stop=stop, num_steps=n)
+        out = ctx.call(vectorize, arg, start=start, stop=stop, num_steps=n)
     scale = LD.coord_scale(bars) + abs(start) + abs(stop)
     ctx.require(close(out.start, start, scale) and close(out.stop, stop, scale) and out.num_steps == n and out.hom_deg == ple.hom_deg,
                 "grid_params", lambda: "vectorize grid (%r,%r,%r) expected (%r,%r,%r)" % (out.start, out.stop, out.num_steps, start, stop, n))
@@ -186,7 +188,7 @@ def check_vectorize(case, ctx):
 @st.composite
 def s_transformer(draw):
     fam = draw(LD.bar_family(1, 8, count=2))
-    return {"fam": fam, "hom_deg": draw(st.sampled_from([0, 1])), "num_steps": draw(st.integers(2, 80)),
+    return {"fam": fam, "hom_deg": draw(st.sampled_from([0, 1])), "num_steps": draw(st.one_of(st.integers(2, 80), st.integers(2, 80), st.just(500))),
             "flatten": draw(st.booleans()), "fix": draw(st.sampled_from(["none", "start", "stop", "both"])),
             "pad": draw(st.sampled_from([0.0, 0.5, 1.0]))}
 
